@@ -41,7 +41,7 @@ pub fn run(cfg: &Cfg) -> i32 {
     let start = Instant::now();
     let mut rep = Report::default();
     let configs: Vec<(&str, &str)> = if cfg.thorough { CONFIGS.to_vec() } else { CONFIGS[..4].iter().chain(&CONFIGS[6..7]).cloned().collect() };
-    let cases = cfg.t(60, 400);
+    let cases = cfg.t(160, 800);
     let threads = "1,2,8";
     let vd = verif_dir();
     // builds are sequential (they share the cargo target directory), runs are parallel
@@ -55,13 +55,16 @@ pub fn run(cfg: &Cfg) -> i32 {
         }
     }
     let mut children = vec![];
+    // one recorder process per (configuration, kind): 15..24 processes
     for (name, bin) in &bins {
-        let out = format!("{vd}/target/c20/digest-{name}.jsonl");
-        let _ = std::fs::remove_file(&out);
-        let ch = Command::new(bin).args([&out, &cfg.seed.to_string(), &cases.to_string(), threads]).spawn();
-        match ch {
-            Ok(c) => children.push((name.clone(), out, c)),
-            Err(e) => rep.inconclusive.push(format!("cannot run {bin}: {e}")),
+        for kind in ["bdd", "bcdd", "zbdd"] {
+            let out = format!("{vd}/target/c20/digest-{name}-{kind}.jsonl");
+            let _ = std::fs::remove_file(&out);
+            let ch = Command::new(bin).args([&out, &cfg.seed.to_string(), &cases.to_string(), threads, kind]).spawn();
+            match ch {
+                Ok(c) => children.push((name.clone(), out, c)),
+                Err(e) => rep.inconclusive.push(format!("cannot run {bin}: {e}")),
+            }
         }
     }
     // per case key: config -> (digest, err)
@@ -77,7 +80,7 @@ pub fn run(cfg: &Cfg) -> i32 {
             let Ok(v) = serde_json::from_str::<Value>(l) else { continue };
             let key = format!("{} threads={}", v["case"].as_str().unwrap_or("?"), v["threads"]);
             let case_only = v["case"].as_str().unwrap_or("?").to_string();
-            if v["nontrivial"].as_bool() == Some(true) || case_only.starts_with("n3/") {
+            if v["nontrivial"].as_bool() == Some(true) || case_only.starts_with("n3/") || case_only.starts_with("n3-addvars/") {
                 nontrivial_cases.insert(case_only.clone());
             }
             table.entry(case_only).or_default().insert(format!("{name} threads={}", v["threads"]), (v["digest"].as_u64(), v["err"].as_str().map(|s| s.to_string()), v["history"].clone()));
@@ -114,7 +117,7 @@ pub fn run(cfg: &Cfg) -> i32 {
         &rep,
         Meta {
             level: "exploration",
-            rule: "the recorder binary vrun20 is built for every point of {manager-index, manager-pointer} x {apply-cache-direct-mapped on, off} x {multi-threading on, off} (quick: 5 of the 8 points incl. both backends, both cache settings and one single-threaded build; thorough: all 8). Each binary executes, with worker counts 1, 2 and 8, the exhaustive 3-variable suite (256 functions, node counts vs reference canonical form, sampled operator results as handles, structure + reference-count audit, gc) under all 6 orders for BDD/BCDD/ZBDD and the same seeded proptest histories (apply, quantify, substitute, clone/drop, gc, add_vars, set_var_order, ...) with model comparison, pairwise canonicity, structure and reference-count audits after every step, in forked children. Every run must agree with the truth-table model and all runs of a case must produce byte-identical digests (result tables, node counts, variable orders per step). Non-trivial = case executed by all configurations x 3 thread counts that is an n=3 suite or a history whose results reach >= 3 nodes after a gc or reorder.",
+            rule: "the recorder binary vrun20 is built for every point of {manager-index, manager-pointer} x {apply-cache-direct-mapped on, off} x {multi-threading on, off} (quick: 5 of the 8 points incl. both backends, both cache settings and one single-threaded build; thorough: all 8). Each binary executes, with worker counts 1, 2 and 8, the exhaustive 3-variable suite (256 functions, node counts vs reference canonical form, sampled operator results as handles, structure + reference-count audit, gc) under all 6 orders for BDD/BCDD/ZBDD and the same seeded proptest histories (apply, quantify, substitute, clone/drop, gc, add_vars, set_var_order, ...) with model comparison, pairwise canonicity, structure and reference-count audits after every step, in forked children. Every run must agree with the truth-table model and all runs of a case must produce byte-identical digests (result tables, node counts, variable orders per step). Non-trivial = case executed by all configurations x 3 thread counts that is an n=3 suite or a history whose results reach >= 3 nodes after a gc or reorder. The add_vars suite (n3-addvars) repeats not, restrict by 27 persistent literal cubes, xor and imp on the SAME 256 handles with 3, 4 and 6 variables (add_vars(1), add_vars(2) in between) against the model (ZBDD handles are re-read as f AND NOT x_new), so that results depending on the set of levels cannot be served from state of the smaller manager in any configuration.",
             assumptions: vec!["MTBDD exists only on the index backend and is not part of the cross product".into(), "builds share one cargo target directory and are produced sequentially; binaries are copied to target/c20".into()],
             extra: json!({}),
         },
